@@ -259,3 +259,72 @@ resiter = FunctionContract(
     canary=[("+ [mod]", "+ [key]"), ("if residue_matches(resspec, residue_graph, res_idx):", "if not residue_matches(resspec, residue_graph, res_idx):")],
 )
 CONTRACTS.append(resiter)
+
+
+# ------------------------------------------------------------------ AnnotateMutMod.run_system: which requests are reported
+Entry = TTuple(TBool, TStr, TInt, names=['success', 'key', 'index'])     # one record per (molecule, request)
+Warn = TTuple(TInt, TInt)              # a "not found" warning for request (list, position): list 0 = modifications, 1 = mutations
+
+
+def setup_report(cx):
+    from pyvc.values import IterV
+    from pyvc.builtins import _int, list_append
+    counts = cx.val('resspec_counts', TSeq(Entry))
+    n_mod, n_mut = cx.val('n_modifications', TInt), cx.val('n_mutations', TInt)
+    cx.spec_env['n_modifications'], cx.spec_env['n_mutations'] = n_mod, n_mut
+    cx.assume(z3.And(n_mod.e >= 0, n_mut.e >= 0))
+    WARN = cx.heap('WARNED', Box(TSeq(Warn)))
+
+    def requests(n):
+        o = Obj('requests')
+        # a request unpacks into (resspec, value); only its position in the list matters here
+        o.__dict__['iter'] = IterV(n.e, lambda i: (Obj('resspec', idx=SV(TInt, _int(i))), Obj('value')))
+        return o
+    self = cx.obj('AnnotateMutMod', resspec_counts=counts, modifications=requests(n_mod), mutations=requests(n_mut))
+    cx.spec_env['_format_resname'] = Builtin(lambda e, r: r, '_format_resname')
+    log = Obj('LOGGER')
+    log.attrs['warning'] = Builtin(lambda e, fmt, spec, key, mod, **kw:
+                                   list_append(e, WARN, ({'modification': 0, 'mutation': 1}[key], spec.attrs['idx'])), 'LOGGER.warning')
+    cx.spec_env['LOGGER'] = log
+    return dict(self=self, system=Obj('system'))
+
+
+SPEC_REP = {
+    'C': "lambda: self.resspec_counts",
+    'kname': "lambda k: 'modification' if k == 0 else 'mutation'",
+    'knum': "lambda key: 0 if key == 'modification' else 1",
+    # the request matched in some molecule
+    'matched': "lambda k, i: exists(lambda q: 0 <= q and q < len(C()) and C()[q].key == kname(k) and C()[q].index == i and C()[q].success)",
+    'n_of': "lambda k: n_modifications if k == 0 else n_mutations",
+    # the requests already looked at when the inner loop is at position I of list K
+    'seen': "lambda k, i, K, I: 0 <= i and i < n_of(k) and (k == 0 or k == 1) and (k < K or (k == K and i < I))",
+}
+REP_INV = [
+    "forall(lambda p: implies(0 <= p and p < len(WARNED), seen(WARNED[p][0], WARNED[p][1], knum(key), _i) and "
+    "   not matched(WARNED[p][0], WARNED[p][1]) and g_at[WARNED[p]] == p))",
+    "forall(lambda k, i: implies(seen(k, i, knum(key), _i) and not matched(k, i), "
+    "   (k, i) in g_at and 0 <= g_at[(k, i)] and g_at[(k, i)] < len(WARNED) and WARNED[g_at[(k, i)]] == (k, i)))",
+    "forall(lambda p, q: implies(0 <= p and p < q and q < len(WARNED), "
+    "   WARNED[p][0] < WARNED[q][0] or (WARNED[p][0] == WARNED[q][0] and WARNED[p][1] < WARNED[q][1])))",
+]
+report_missing = FunctionContract(
+    F, 'AnnotateMutMod.run_system', 'C19', short='run_system[reporting]', setup=setup_report, spec_defs=SPEC_REP,
+    region=dict(start="requests = [('modification', self.modifications)"),
+    filters={"entry['key'] == key and entry['index'] == idx": 'hit'},
+    locals=dict(g_at=TMap(Warn, TInt)),
+    requires=["len(old(WARNED)) == 0"],
+    ghost_at={'entry': "g_at = {}"},
+    ensures=[
+        # a request is reported exactly when it matched in none of the molecules: once, modifications before mutations, in order
+        "forall(lambda p: implies(0 <= p and p < len(WARNED), (WARNED[p][0] == 0 or WARNED[p][0] == 1) and "
+        "   0 <= WARNED[p][1] and WARNED[p][1] < n_of(WARNED[p][0]) and not matched(WARNED[p][0], WARNED[p][1]) and g_at[WARNED[p]] == p))",
+        "forall(lambda k, i: implies((k == 0 or k == 1) and 0 <= i and i < n_of(k) and not matched(k, i), "
+        "   (k, i) in g_at and 0 <= g_at[(k, i)] and g_at[(k, i)] < len(WARNED) and WARNED[g_at[(k, i)]] == (k, i)))",
+        REP_INV[2],
+    ],
+    modifies=['WARNED'],
+    loops={'L1.1': LoopSpec(inv=REP_INV, modifies=['WARNED', 'g_at'], locals=dict(g_at=TMap(Warn, TInt), g_w0=TInt),
+                            ghost_pre="g_w0 = len(WARNED)", ghost_end="if len(WARNED) > g_w0:\n    g_at[(knum(key), _i)] = g_w0")},
+    canary=[("if not found:", "if found:"), ("if entry['key'] == key and entry['index'] == idx)", "if entry['key'] == key)")],
+)
+CONTRACTS.append(report_missing)
